@@ -215,7 +215,8 @@ class Outcome:
     # -- finish ----------------------------------------------------------------------------
     def finish(self, *, level="model_checking") -> int:
         wall = time.time() - self.t0
-        ev_dir = os.path.join(ROOT, "evidence")
+        # growth checks (G..) are not listed properties: their evidence is kept apart from the per-property files
+        ev_dir = os.path.join(ROOT, "evidence") if self.prop.startswith("C") else os.path.join(ROOT, "evidence", "growth")
         os.makedirs(ev_dir, exist_ok=True)
         replay_paths = []
         seen_sig = set()
